@@ -103,7 +103,17 @@ def gen_msd_text(rng, fmt=None):
             k = rng.choice(used)        # duplicate key
         used.append(k)
         r = rng.random()
-        if r < 0.08:
+        if k in gen.REALISTIC and rng.random() < 0.3:
+            # values as real simfiles have them (several attacks, BPM ranges, Windows paths)
+            v = rng.choice(gen.REALISTIC[k])
+            if k in ("ATTACKS", "DISPLAYBPM"):
+                comps = v.split(":")
+                if k == "ATTACKS" and rng.random() < 0.6:
+                    comps = comps + ["TIME=2.000", "LEN=1.000", "MODS=tornado"]
+                param(_case(rng, k), comps)
+            else:
+                param(_case(rng, k), [gen.esc(v)])
+        elif r < 0.08:
             param(_case(rng, k), [], keyonly=True)
         elif r < 0.25 or k in ("ATTACKS", "DISPLAYBPM") and r < 0.6:
             param(_case(rng, k), [_val(rng) for _ in range(rng.randint(2, 4))])
@@ -119,6 +129,9 @@ def gen_msd_text(rng, fmt=None):
                    "\u2028", "\r", " " + nl + " "]
             comps = [rng.choice(pad if rng.random() < 0.3 else pad[:3]) + _val(rng).replace("#", "") +
                      rng.choice(pad if rng.random() < 0.3 else ["", " ", nl]) for _ in range(n)]
+            if n >= 6 and rng.random() < 0.3:
+                comps[0] = nl + "     " + rng.choice(gen.STEPSTYPES)
+                comps[2] = nl + "     " + rng.choice(gen.DIFFICULTIES)
             if n >= 6 and rng.random() < 0.02:
                 comps[5] = nl + gen.esc(gen.gen_dense_string(rng, rng.choice([9000, 26000, 70000]))
                                         .replace("\r", "")) + nl
@@ -128,7 +141,12 @@ def gen_msd_text(rng, fmt=None):
             for _ in range(rng.randint(0, 4)):
                 stray()
                 k = rng.choice(CHART_KEYS)
-                if rng.random() < 0.1:
+                if k in ("ATTACKS", "DISPLAYBPM") and rng.random() < 0.4:
+                    comps = rng.choice(gen.REALISTIC[k]).split(":")
+                    if k == "ATTACKS":
+                        comps = comps + ["TIME=2.000", "LEN=1.000", "MODS=tornado"]
+                    param(_case(rng, k), comps)
+                elif rng.random() < 0.1:
                     param(_case(rng, k), [], keyonly=True)
                 else:
                     param(_case(rng, k), [_val(rng) for _ in range(rng.choice([1, 1, 1, 2, 3]))])
@@ -229,6 +247,8 @@ def generate(prop, rng, run, tier):
     if prop == "C03":
         cfg["real"] = rng.random() < 0.05
         cfg["newline"] = gen.wchoice(rng, [("default", 6), ("none", 2), ("empty", 2)])
+        if rng.random() < 0.3:
+            cfg["explicit_first"] = rng.choice(["cp1252", "latin-1", "cp932", "utf-8", "cp949"])
         r = rng.random()
         if r < 0.04:
             rel = rng.choice(CORPUS["sm"] + CORPUS["ssc"])
@@ -582,6 +602,17 @@ def check_c03(sc, res):
                 elif nlmode == "empty":
                     kw["newline"] = ""
                     translate = False
+
+                if cfg.get("explicit_first") and facade in ("simfs", "native"):
+                    # history: the same file opened with an explicit encoding first
+                    hdisk = make_disk(world, {}, None, facade)
+                    with Facade(facade, hdisk) as hfa:
+                        try:
+                            sfm.open(hfa.p(path), strict=False, encoding=cfg["explicit_first"],
+                                     **hfa.kw)
+                        except (MSDParserError, ValueError, UnicodeDecodeError):
+                            pass
+                    res.stats["probe:explicit-encoding-open-first"] += 1
 
                 def via_file():
                     disk = make_disk(world, {"short_reads": sr}, None, facade)
